@@ -2,7 +2,7 @@
    Imports model files only.  A case records one call of the real Go API and what it returned;
    [mismatches] re-runs the call on the model and lists the cases where the answers differ. *)
 From Coq Require Import List ZArith NArith Bool Strings.Byte.
-Require Import Regen.Base.Bytes Regen.Dec.Dec.
+Require Import Regen.Base.Bytes Regen.Base.BigIntScan Regen.Dec.Dec.
 Import ListNotations.
 Local Open Scope Z_scope.
 
@@ -16,7 +16,8 @@ Inductive dec_op :=
 | OpMathAdd | OpSubNonNegative | OpSafeSubBalance | OpSafeAddBalance   (* math.go helpers *)
 | OpCmp | OpEqual
 | OpIsZero | OpIsNegative | OpIsPositive | OpNumDecimalPlaces
-| OpReduce | OpString | OpBigInt | OpSdkIntTrim.
+| OpReduce | OpString | OpBigInt | OpSdkIntTrim
+| OpSdkInt.              (* sdk.NewIntFromString(a0): RZ value, or RErr EParse when not ok *)
 
 (* What the implementation (or the model) answered. *)
 Inductive dec_result :=
@@ -111,6 +112,10 @@ Definition run_model (op : dec_op) (args : list bytes) (extra : Z) : dec_result 
   | OpString => with1 args (fun x => RStr (to_string x))
   | OpBigInt => with1 args (fun x => show_resZ (big_int x))
   | OpSdkIntTrim => with1 args (fun x => show_resZ (sdk_int_trim x))
+  | OpSdkInt =>
+      match arg0 args with
+      | Some a => match sdk_int_from_string a with Some z => RZ z | None => RErr EParse end
+      | None => RBadCase end
   end.
 
 (* ids of the cases where the model disagrees with the implementation, with the model's answer *)
